@@ -95,6 +95,7 @@ class World:
                 "cursor": ef.get("lead", 0),
                 "tail": ef.get("tail", 0),
                 "always": ef.get("always", False),
+                "cut": ef.get("cut", 0),
                 "chunks": [],
             }
         # pre-existing directories, links and plain files come first so that
@@ -130,6 +131,12 @@ class World:
             self.tensor_objs.append(t)
             self.payloads.append(payload)
         tensors.flush_ext_files(self.ext_files)
+        self.short_source = any(info.get("short") for info in self.ext_files.values())
+        self.short_sizes = [n for info in self.ext_files.values() for n in info.get("short_sizes", [])]
+        for link, target in case.get("pre_hardlinks", {}).items():
+            lp = os.path.join(root, link)
+            os.makedirs(os.path.dirname(lp), exist_ok=True)
+            os.link(os.path.join(root, target), lp)
         for key, ef in case.get("ext_files", {}).items():
             if ef.get("mode") is not None and self.ext_files[key]["chunks"]:
                 os.chmod(os.path.join(self.ext_files[key]["base_dir"], ef["location"]), ef["mode"])
